@@ -73,3 +73,83 @@ package crdt
 //@   ensures imp(err == nil, result0 != nil && fresh(result0) && !mastDirty(*c.Mast) && result0.Created == c.Created && result0.MergeSources == c.MergeSources && result0.MergeMode == c.MergeMode)
 //@   ensures imp(err != nil, result0 == nil)
 //@   ensures forall a int :: imp(err == nil, has(T(*c.Mast), a) == old(has(T(*c.Mast), a)) && T(*c.Mast)[a] == old(T(*c.Mast)[a]))
+
+// ---------------------------------------------------------------------------
+// Tree merge (property C01, C17). mast.DiffIter(newTree vs graft) reports, per
+// key: added (only in newTree), removed (only in graft), or changed (in both,
+// different values: addedValue is newTree's, removedValue the graft's). The
+// per-key callbacks below decide what the merged tree holds under the key.
+
+// the custom merge callback of a table (s3db.mergeValues): a function of its arguments
+//@ func convertMergeFunc$1#cb
+//@   trusted
+//@   modifies nothing
+//@   ensures result.ModEpochNanos == cbMod(key, v1, v2) && result.TombstoneSinceEpochNanos == cbTomb(key, v1, v2) && result.PreviousRoot == cbPrev(key, v1, v2) && result.Value.tag == cbValTag(key, v1, v2) && result.Value.box == cbValBox(key, v1, v2)
+//@ ufunc cbMod(k, a, b) int64
+//@ ufunc cbTomb(k, a, b) int64
+//@ ufunc cbPrev(k, a, b) string
+//@ ufunc cbValTag(k, a, b) int
+//@ ufunc cbValBox(k, a, b) int
+
+// custom-merge mode: changed keys get cb(key, mine, graft's); keys only in the
+// graft are taken over; keys only in newTree stay
+//@ func convertMergeFunc$1
+//@   requires cb != nil
+//@   requires newTree != nil && onConflictMerged == nil
+//@   requires imp(!added, typeis(removedValue, crdt.Value)) && imp(!added && !removed, typeis(addedValue, crdt.Value))
+//@   modifies *newTree
+//@   ensures changed: imp(result1 == nil && !added && !removed, result0 && has(T(*newTree), akey(key)) &&
+//@       T(*newTree)[akey(key)].ModEpochNanos == cbMod(key, addedValue.(crdt.Value), removedValue.(crdt.Value)) &&
+//@       T(*newTree)[akey(key)].TombstoneSinceEpochNanos == cbTomb(key, addedValue.(crdt.Value), removedValue.(crdt.Value)) &&
+//@       T(*newTree)[akey(key)].PreviousRoot == cbPrev(key, addedValue.(crdt.Value), removedValue.(crdt.Value)) &&
+//@       T(*newTree)[akey(key)].Value.tag == cbValTag(key, addedValue.(crdt.Value), removedValue.(crdt.Value)))
+//@   ensures only-mine: imp(added, result0 && result1 == nil && *newTree == old(*newTree))
+//@   ensures only-graft: imp(result1 == nil && !added && removed, result0 && has(T(*newTree), akey(key)) && T(*newTree)[akey(key)] == removedValue.(crdt.Value))
+//@   ensures others: forall a int :: imp(result1 == nil && a != akey(key), has(T(*newTree), a) == old(has(T(*newTree), a)) && T(*newTree)[a] == old(T(*newTree)[a]))
+//@   ensures error-stops: imp(result1 != nil, !result0)
+
+// default mode: the documented kv join (later write wins, tombstone dominates,
+// earliest tombstone kept) — in either merge direction
+//@ func init$1
+//@   requires newTree != nil && onConflictMerged == nil
+//@   requires imp(!added, typeis(removedValue, crdt.Value)) && imp(!added && !removed, typeis(addedValue, crdt.Value))
+//@   modifies *newTree
+//@   ensures changed: imp(result1 == nil && !added && !removed, result0 && has(T(*newTree), akey(key)) &&
+//@       T(*newTree)[akey(key)] == ite(lwwFirst(addedValue.(crdt.Value), removedValue.(crdt.Value)), addedValue.(crdt.Value), removedValue.(crdt.Value)))
+//@   ensures only-mine: imp(added, result0 && result1 == nil && *newTree == old(*newTree))
+//@   ensures only-graft: imp(result1 == nil && !added && removed, result0 && has(T(*newTree), akey(key)) && T(*newTree)[akey(key)] == removedValue.(crdt.Value))
+//@   ensures others: forall a int :: imp(result1 == nil && a != akey(key), has(T(*newTree), a) == old(has(T(*newTree), a)) && T(*newTree)[a] == old(T(*newTree)[a]))
+//@   ensures error-stops: imp(result1 != nil, !result0)
+
+// mergeTrees drives mast.DiffIter with the per-key callback. ASSUMED (the
+// iterator is a dependency and higher-order): DiffIter delivers every key whose
+// entries differ exactly once with the flags described above and skips equal
+// entries; so for one graft the result holds, per key, the callback's choice.
+//@ func mergeTrees
+//@   trusted
+//@   requires primary != nil && len(grafts) == 1 && grafts[0] != nil
+//@   modifies nothing
+//@   ensures imp(err == nil, result0 != nil && fresh(result0) && fresh(*result0))
+//@   ensures forall a int :: imp(err == nil, has(T(*result0), a) == (has(T(*primary), a) || has(T(*grafts[0]), a)))
+//@   ensures forall a int :: imp(err == nil && has(T(*primary), a) && !has(T(*grafts[0]), a), T(*result0)[a] == T(*primary)[a])
+//@   ensures forall a int :: imp(err == nil && !has(T(*primary), a) && has(T(*grafts[0]), a), T(*result0)[a] == T(*grafts[0])[a])
+//@   ensures forall a int :: imp(err == nil && has(T(*primary), a) && has(T(*grafts[0]), a) && T(*primary)[a] == T(*grafts[0])[a], T(*result0)[a] == T(*primary)[a])
+//@   ensures imp(err != nil, result0 == nil)
+
+//@ func convertMergeFunc
+//@   modifies nothing
+
+// Merge: both trees must use the same merge mode; the merged tree replaces
+// c.Mast only on success; the graft's version name is recorded as a parent.
+//@ func (*Tree).Merge
+//@   requires c != nil && c.Mast != nil && other != nil && other.Mast != nil
+//@   modifies c.Mast, c.MergeSources
+//@   ensures mode-mismatch: imp(c.MergeMode != other.MergeMode, result != nil)
+//@   ensures failed-unchanged: imp(result != nil, c.Mast == old(c.Mast) && c.MergeSources == old(c.MergeSources))
+//@   ensures keys: forall a int :: imp(result == nil, has(T(*c.Mast), a) == (old(has(T(*c.Mast), a)) || has(T(*other.Mast), a)))
+//@   ensures only-mine: forall a int :: imp(result == nil && old(has(T(*c.Mast), a)) && !has(T(*other.Mast), a), T(*c.Mast)[a] == old(T(*c.Mast)[a]))
+//@   ensures only-graft: forall a int :: imp(result == nil && !old(has(T(*c.Mast), a)) && has(T(*other.Mast), a), T(*c.Mast)[a] == T(*other.Mast)[a])
+//@   ensures equal-kept: forall a int :: imp(result == nil && old(has(T(*c.Mast), a)) && has(T(*other.Mast), a) && old(T(*c.Mast)[a]) == T(*other.Mast)[a], T(*c.Mast)[a] == T(*other.Mast)[a])
+//@   ensures parent-recorded: imp(result == nil && other.Source != nil, len(c.MergeSources) == old(len(c.MergeSources)) + 1 && c.MergeSources[len(c.MergeSources) - 1] == *other.Source)
+//@   ensures parent-none: imp(result == nil && other.Source == nil, c.MergeSources == old(c.MergeSources))
+//@   ensures parents-kept: forall j int :: imp(result == nil && 0 <= j && j < old(len(c.MergeSources)), c.MergeSources[j] == old(c.MergeSources[j]))
